@@ -72,7 +72,7 @@ pub fn drive(a: &Args, m: &mut Mon, sink: &mut Sink) {
     canaries(sink);
     m.canaries_fed += 5;
     let mut r = Rng::lane(a.seed, "C01", a.shard, 0);
-    let n = a.n(16_000, 450_000);
+    let n = a.n(16_000, 1_600_000);
     for _ in 0..n {
         macro_rules! per {
             ($t:ident) => {
